@@ -369,11 +369,17 @@ def run(ctx, rep):
             if is_user_call(c) and UNGATED.match(c.name):
                 # public HTTP endpoints are declared public by the server
                 pub = fn in ('server::http::system::get_stats', 'server::http::system::get_metrics', 'server::http::system::get_ping')
-                rep.ob('R09.f', fn, 'calls ' + c.name.split('::')[-1], pub, c.where(),
-                       'declared public over HTTP' if pub else 'handler answers from `System::%s`, which takes no session: neither authentication nor a permission is checked' % c.name.split('::')[-1])
+                # or the handler performed the gate itself: authentication and a permission rule about the session user both succeeded before
+                auth = [g for g in b.calls if g.name == AUTH and success_dominates(b, g, c.bb)]
+                perm = [g for g in b.calls if g.name.startswith(P + '::') and len(g.args) > 1 and expr_has_call(b.expr_operand(g.args[1]), 'server::streaming::session::Session::get_user_id')
+                        and success_dominates(b, g, c.bb)]
+                ok = pub or (bool(auth) and bool(perm))
+                rep.ob('R09.f', fn, 'calls ' + c.name.split('::')[-1], ok, c.where(),
+                       'declared public over HTTP' if pub else ('after ensure_authenticated and Permissioner::%s succeeded' % perm[0].name.split('::')[-1] if ok else
+                       'handler answers from `System::%s`, which takes no session: neither authentication nor a permission is checked' % c.name.split('::')[-1]))
         for blk in sorted(b.reach):
             for adt, f_, ln in block_field_accesses(b, blk):
-                if adt == SYS and f_ in ('streams', 'users', 'streams_ids', 'permissioner'):
+                if adt == SYS and f_ in ('streams', 'users', 'streams_ids'):
                     rep.ob('R09.f', fn, 'field ' + f_, False, '%s:%s' % (b.file, ln), 'handler touches System.%s directly' % f_)
     rep.ob('R09.f', '<handlers>', 'scanned', n_handlers >= 100, None, '%d handler bodies scanned' % n_handlers)
 
